@@ -445,6 +445,7 @@ pub fn gen_project(rng: &mut Rng, o: &ProjectOpts) -> Project {
             closed_imports: o.closed_imports,
             cover_fragments: o.cover_fragments,
             name_collisions: false,
+            mixed_wildcard: false,
             dirs: dirs.clone(),
         },
     );
